@@ -1183,6 +1183,46 @@ func loopFacts1(L *Lin, g *Gate, s *Summary, fn *ssa.Function) {
 						L.leE(p, init, 0)
 					}
 				}
+				// inductive lower bound for a φ that is not a counter (start = i + 1 on some iterations,
+				// unchanged on others): with a constant initial value c, if every value carried around
+				// the loop is the φ itself or provably >= c given φ >= c and the facts known so far,
+				// then φ >= c
+				if !up && !down && len(inits) == 1 && inits[0] != nil {
+					if _, isC := inits[0].IntVal(); isC {
+						L2 := NewLin(u)
+						L2.cons = append(L2.cons, L.cons...)
+						for k, v := range L.terms {
+							L2.terms[k] = v
+							L2.seenT[k] = true
+						}
+						L2.leE(inits[0], p, 0)
+						okAll := true
+						for i, pr := range l.Header.Preds {
+							if !l.Blocks[pr] {
+								continue
+							}
+							v := s.Env[ph.Edges[i]]
+							if v == nil {
+								if ph.Edges[i] == ssa.Value(ph) {
+									continue
+								}
+								okAll = false
+								continue
+							}
+							for leaf := range u.Leaves(v) {
+								if leaf == p {
+									continue
+								}
+								if !L2.entails(L2.linearize(inits[0]), L2.linearize(leaf), 0) {
+									okAll = false
+								}
+							}
+						}
+						if okAll {
+							L.leE(inits[0], p, 0)
+						}
+					}
+				}
 				// inductive upper bound: steps only under p < B (B loop-invariant) and init <= B  =>  p <= B
 				if up && len(inits) == 1 && inits[0] != nil {
 					for _, lt := range l.Latches {
